@@ -5,7 +5,7 @@
    small document model (two tokenised text fields that are the default fields, one raw string
    field, one u64 field) that the harness schema instantiates.  `cq_sem` is the documented meaning
    of a concrete query, defined without the operator fold.  Style: stdlib. *)
-From TV Require Import Base.Prelude Text.BinOpFold Text.Grammar.
+From TV Require Import Base.Prelude Text.BinOpFold Text.Grammar Generated.Constants.
 Local Open Scope N_scope.
 
 (* ------------------------------------------------------------------ logical AST *)
@@ -127,10 +127,13 @@ Section OccurSemantics.
 End OccurSemantics.
 
 (* ------------------------------------------------------------------ documents and leaves *)
-Record doc := { d_title : list str; d_body : list str; d_tag : str; d_n : N }.
+(* the words of the text fields are kept as written (before the analyzer); title / body use the
+   `default` tokenizer (default fields), `stop` uses SimpleTokenizer + LowerCaser + StopWordFilter *)
+Record doc := { d_title : list str; d_body : list str; d_stop : list str; d_tag : str; d_n : N }.
 
 Definition F_title : str := [116;105;116;108;101].
 Definition F_body : str := [98;111;100;121].
+Definition F_stop : str := [115;116;111;112].
 Definition F_tag : str := [116;97;103].
 Definition F_n : str := [110].
 
@@ -141,20 +144,63 @@ Fixpoint split_sp (cur : str) (s : str) : list str :=
   end.
 Definition tokens (s : str) : list str := split_sp [] s.
 
-Fixpoint starts_with (p l : list str) : bool :=
-  match p, l with
+(* ---- analyzers: a token filter removes a word but the words that remain keep their positions
+   (src/tokenizer: Token::position is assigned by the tokenizer, filters only drop tokens);
+   postings_writer.index_text and generate_literals_for_str both use token.position *)
+Fixpoint analyze_from (drop : str -> bool) (k : N) (ws : list str) : list (N * str) :=
+  match ws with
+  | [] => []
+  | w :: r => if drop w then analyze_from drop (k + 1) r else (k, w) :: analyze_from drop (k + 1) r
+  end.
+Definition analyze (drop : str -> bool) (ws : list str) : list (N * str) := analyze_from drop 0 ws.
+
+(* RemoveLongFilter of the `default` tokenizer (limit and comparison regenerated from the sources) *)
+Definition drop_long (w : str) : bool :=
+  let len := N.of_nat (length w) in
+  if QG_REMOVE_LONG_KEEPS_STRICTLY_SHORTER =? 1 then QG_DEFAULT_TOKENIZER_LONG_LIMIT <=? len
+  else QG_DEFAULT_TOKENIZER_LONG_LIMIT <? len.
+(* the stop words the harness registers for the `stop` field: the, of *)
+Definition stop_words : list str := [[116;104;101]; [111;102]].
+Definition drop_stop (w : str) : bool := existsb (str_eqb w) stop_words.
+
+Definition has_tok (doc_toks : list (N * str)) (p : N) (t : str) : bool :=
+  existsb (fun pt => (fst pt =? p) && str_eqb (snd pt) t) doc_toks.
+Fixpoint is_prefix (p s : str) : bool :=
+  match p, s with
   | [], _ => true
-  | a :: p', b :: l' => str_eqb a b && starts_with p' l'
+  | a :: p', b :: s' => (a =? b) && is_prefix p' s'
   | _ :: _, [] => false
   end.
-Fixpoint contains_phrase (p l : list str) : bool :=
-  starts_with p l || match l with [] => false | _ :: l' => contains_phrase p l' end.
+Definition has_tok_prefix (doc_toks : list (N * str)) (p : N) (t : str) : bool :=
+  existsb (fun pt => (fst pt =? p) && is_prefix t (snd pt)) doc_toks.
 
-Definition text_match (toks : list str) (phrase : str) : bool :=
-  match tokens phrase with
+(* PhraseQuery::new_with_offset(terms): the terms at the same relative offsets; with `prefix` the
+   last term only has to be a prefix of the document's token (PhrasePrefixQuery) *)
+Fixpoint rest_ok (doc_toks : list (N * str)) (prefix : bool) (dp p0 : N) (q : list (N * str)) : bool :=
+  match q with
+  | [] => true
+  | [(p, t)] => if prefix then has_tok_prefix doc_toks (dp + (p - p0)) t else has_tok doc_toks (dp + (p - p0)) t
+  | (p, t) :: r => has_tok doc_toks (dp + (p - p0)) t && rest_ok doc_toks prefix dp p0 r
+  end.
+Definition phrase_match (doc_toks : list (N * str)) (prefix : bool) (q : list (N * str)) : bool :=
+  match q with
   | [] => false
-  | [t] => existsb (str_eqb t) toks
-  | p => contains_phrase p toks
+  | (p0, t0) :: r =>
+      existsb (fun pt => str_eqb (snd pt) t0 && rest_ok doc_toks prefix (fst pt) p0 r) doc_toks
+  end.
+
+(* generate_literals_for_str: no token -> nothing; one token -> a term; several -> a phrase with the
+   analyzer's positions.  `hi` selects, for a phrase with slop > 0, the upper bound (all its terms
+   occur) instead of the lower bound (they occur at exactly the phrase's offsets): the slop matching
+   itself belongs to C03. *)
+Definition text_match (hi : bool) (drop : str -> bool) (words : list str) (phrase : str) (slop : N) (prefix : bool) : bool :=
+  let doc_toks := analyze drop words in
+  match analyze drop (tokens phrase) with
+  | [] => false
+  | [(_, t)] => existsb (fun pt => str_eqb (snd pt) t) doc_toks
+  | q =>
+      if hi && negb (slop =? 0) then forallb (fun pt => existsb (fun dt => str_eqb (snd dt) (snd pt)) doc_toks) q
+      else phrase_match doc_toks prefix q
   end.
 Definition all_digits_b (s : str) : bool := forallb is_digit s && negb (is_nil s).
 Definition bound_ok_lo (b : bound) (v : N) : bool :=
@@ -163,26 +209,29 @@ Definition bound_ok_hi (b : bound) (v : N) : bool :=
   match b with BUnb => true | BIncl s => all_digits_b s && (v <=? digits_val s) | BExcl s => all_digits_b s && (v <? digits_val s) end.
 
 (* which documents a leaf matches on the harness schema (title, body: default fields) *)
-Definition leaf_matches (d : doc) (l : leaf) : bool :=
+Definition leaf_matches_b (hi : bool) (d : doc) (l : leaf) : bool :=
   match l with
-  | LLit None p _ _ _ => text_match (d_title d) p || text_match (d_body d) p
-  | LLit (Some f) p _ _ _ =>
-      if str_eqb f F_title then text_match (d_title d) p
-      else if str_eqb f F_body then text_match (d_body d) p
+  | LLit None p _ sl pf => text_match hi drop_long (d_title d) p sl pf || text_match hi drop_long (d_body d) p sl pf
+  | LLit (Some f) p _ sl pf =>
+      if str_eqb f F_title then text_match hi drop_long (d_title d) p sl pf
+      else if str_eqb f F_body then text_match hi drop_long (d_body d) p sl pf
+      else if str_eqb f F_stop then text_match hi drop_stop (d_stop d) p sl pf
       else if str_eqb f F_tag then str_eqb p (d_tag d)
       else if str_eqb f F_n then all_digits_b p && (digits_val p =? d_n d)
       else false
   | LAll => true
-  | LRange (Some f) lo hi => str_eqb f F_n && bound_ok_lo lo (d_n d) && bound_ok_hi hi (d_n d)
+  | LRange (Some f) lo hi_b => str_eqb f F_n && bound_ok_lo lo (d_n d) && bound_ok_hi hi_b (d_n d)
   | LSet (Some f) es =>
       if str_eqb f F_n then existsb (fun e => all_digits_b e && (digits_val e =? d_n d)) es
       else if str_eqb f F_tag then existsb (fun e => str_eqb e (d_tag d)) es
       else false
   | _ => false
   end.
+Definition leaf_matches : doc -> leaf -> bool := leaf_matches_b false.
 
-Definition count_spec (dflt : occur) (corpus : list doc) (u : uast) : N :=
-  N.of_nat (length (filter (fun d => sem (leaf_matches d) dflt u) corpus)).
+Definition count_spec_b (hi : bool) (dflt : occur) (corpus : list doc) (u : uast) : N :=
+  N.of_nat (length (filter (fun d => sem (leaf_matches_b hi d) dflt u) corpus)).
+Definition count_spec : occur -> list doc -> uast -> N := count_spec_b false.
 
 (* ------------------------------------------------------------------ documented meaning of a concrete query *)
 Definition is_pure_chain (o1 : option occur) (rest : list (str * option binop * str * option occur * cq)) : bool :=
@@ -192,6 +241,7 @@ Definition is_pure_list (rest : list (str * option binop * str * option occur * 
   forallb (fun r => match r with (_, None, _, _, _) => true | _ => false end) rest.
 
 Section CqSem.
+  Variable hi : bool.
   Variable dflt : occur.
   Variable d : doc.
   (* the meaning of an atom is a truth value; the meaning of `+a -b c` / `a AND b OR c` is given by
@@ -199,7 +249,7 @@ Section CqSem.
      cq_sem returns None *)
   Fixpoint cq_sem (c : cq) : option bool :=
     match c with
-    | CLit f l => Some (leaf_matches d (norm_leaf (option_map fst f) l))
+    | CLit f l => Some (leaf_matches_b hi d (norm_leaf (option_map fst f) l))
     | CAllQ => Some true
     | CParen q => cq_sem q
     | CGroup _ _ _ _ => None
@@ -228,11 +278,126 @@ Section CqSem.
 End CqSem.
 
 (* number of documents of the corpus that the documented meaning selects (None: no claim) *)
-Fixpoint cq_count (dflt : occur) (corpus : list doc) (c : cq) : option N :=
+Fixpoint cq_count_b (hi : bool) (dflt : occur) (corpus : list doc) (c : cq) : option N :=
   match corpus with
   | [] => Some 0
-  | d :: r => match cq_sem dflt d c, cq_count dflt r c with
+  | d :: r => match cq_sem hi dflt d c, cq_count_b hi dflt r c with
               | Some b, Some n => Some (if b then n + 1 else n)
               | _, _ => None
               end
   end.
+Definition cq_count : occur -> list doc -> cq -> option N := cq_count_b false.
+(* exact when no phrase carries a slop; otherwise lower and upper bound *)
+Definition count_within (dflt : occur) (corpus : list doc) (c : cq) (cnt : N) : bool :=
+  match cq_count_b false dflt corpus c, cq_count_b true dflt corpus c with
+  | Some lo, Some hi => (lo <=? cnt) && (cnt <=? hi)
+  | _, _ => false
+  end.
+
+(* F163 (src/query/phrase_prefix_query/phrase_prefix_scorer.rs): with three or more terms the
+   phrase-prefix scorer assumes that the prefix term directly follows the previous term
+   (PhraseScorer::new_with_offset(.., 0, 1)); when the analyzer removed a word right before the last
+   word of a `"..."*` phrase, the documents that contain the phrase's own text are missed.
+   Class: the query contains a prefix phrase whose analysis keeps >= 3 tokens and whose last two
+   tokens are not at consecutive positions. *)
+Definition field_drop (f : option str) : str -> bool :=
+  match f with Some n => if str_eqb n F_stop then drop_stop else drop_long | None => drop_long end.
+Definition gap_before_last (q : list (N * str)) : bool :=
+  match rev q with
+  | (p2, _) :: (p1, _) :: _ :: _ => negb (p2 =? p1 + 1)
+  | _ => false
+  end.
+Definition F163_leaf (l : leaf) : bool :=
+  match l with
+  | LLit f p _ _ true => gap_before_last (analyze (field_drop f) (tokens p))
+  | _ => false
+  end.
+Fixpoint ast_exists (P : leaf -> bool) (a : uast) : bool :=
+  match a with
+  | Leaf l => P l
+  | Boost a _ => ast_exists P a
+  | Clause cs => (fix go (cs : list (option occur * uast)) : bool :=
+                    match cs with [] => false | c :: r => ast_exists P (snd c) || go r end) cs
+  end.
+Definition F163_class (u : uast) : bool := ast_exists F163_leaf u.
+
+(* ------------------------------------------------------------------ phrases keep the analyzer's positions *)
+Lemma str_eqb_refl (s : str) : str_eqb s s = true.
+Proof. unfold str_eqb. induction s as [|c s IH]; [reflexivity|]. cbn [list_eqb]. now rewrite N.eqb_refl, IH. Qed.
+
+Lemma analyze_from_app drop k a b :
+  analyze_from drop k (a ++ b) = analyze_from drop k a ++ analyze_from drop (k + N.of_nat (length a)) b.
+Proof.
+  revert k. induction a as [|w a IH]; intros k; cbn [app analyze_from length].
+  - f_equal. lia.
+  - rewrite IH. replace (k + 1 + N.of_nat (length a)) with (k + N.of_nat (S (length a))) by lia.
+    now destruct (drop w).
+Qed.
+Lemma analyze_from_shift drop k ws :
+  analyze_from drop k ws = map (fun pt => (k + fst pt, snd pt)) (analyze_from drop 0 ws).
+Proof.
+  revert k. induction ws as [|w r IH]; intros k; [reflexivity|]. cbn [analyze_from].
+  rewrite (IH (k + 1)), (IH (0 + 1)).
+  assert (E : map (fun pt : N * str => (k + 1 + fst pt, snd pt)) (analyze_from drop 0 r)
+            = map (fun pt : N * str => (k + fst pt, snd pt)) (map (fun pt : N * str => (0 + 1 + fst pt, snd pt)) (analyze_from drop 0 r))).
+  { rewrite map_map. apply map_ext. intros [p t]. cbn [fst snd]. f_equal. lia. }
+  destruct (drop w); cbn [map fst snd]; rewrite E; [reflexivity|]. f_equal. f_equal. lia.
+Qed.
+Lemma analyze_from_ge drop k ws pt : In pt (analyze_from drop k ws) -> k <= fst pt.
+Proof.
+  revert k. induction ws as [|w r IH]; intros k; [intros []|]. cbn [analyze_from].
+  destruct (drop w); [intros H; apply IH in H; lia|]. intros [<- | H]; [cbn; lia|apply IH in H; lia].
+Qed.
+Lemma analyze_from_sorted drop k ws p t r :
+  analyze_from drop k ws = (p, t) :: r -> forall pt, In pt r -> p <= fst pt.
+Proof.
+  revert k. induction ws as [|w ws IH]; intros k; [discriminate|]. cbn [analyze_from].
+  destruct (drop w); [apply IH|]. intros E pt Hin. injection E as <- <- <-.
+  apply analyze_from_ge in Hin. lia.
+Qed.
+
+Lemma has_tok_in D p t : In (p, t) D -> has_tok D p t = true.
+Proof.
+  intros H. unfold has_tok. apply existsb_exists. exists (p, t). split; [exact H|].
+  cbn [fst snd]. now rewrite N.eqb_refl, str_eqb_refl.
+Qed.
+Lemma rest_ok_all D dp p0 r :
+  (forall pt, In pt r -> p0 <= fst pt /\ In (dp + (fst pt - p0), snd pt) D) -> rest_ok D false dp p0 r = true.
+Proof.
+  induction r as [|[p t] r IH]; intros H; [reflexivity|].
+  assert (Hh : has_tok D (dp + (p - p0)) t = true).
+  { apply has_tok_in. exact (proj2 (H (p, t) (or_introl eq_refl))). }
+  cbn [rest_ok]. destruct r as [|x r']; [exact Hh|]. rewrite Hh. cbn [andb].
+  apply IH. intros pt Hin. apply H. now right.
+Qed.
+
+(* A document that contains the text of a phrase (as consecutive words, anywhere) matches the phrase
+   query built from that text -- whatever words the field's analyzer removes, provided the query keeps
+   the analyzer's positions (generate_literals_for_str: `terms.push((token.position, term))`). *)
+Theorem phrase_self_match drop pre ws post :
+  analyze drop ws <> [] ->
+  phrase_match (analyze drop (pre ++ ws ++ post)) false (analyze drop ws) = true.
+Proof.
+  intros Hne. unfold analyze in *.
+  set (k := N.of_nat (length pre)).
+  assert (Hsub : forall pt, In pt (analyze_from drop 0 ws) -> In (k + fst pt, snd pt) (analyze_from drop 0 (pre ++ ws ++ post))).
+  { intros pt Hin. rewrite analyze_from_app, analyze_from_app. apply in_or_app. right. apply in_or_app. left.
+    rewrite N.add_0_l. fold k. rewrite analyze_from_shift. apply in_map_iff. exists pt. split; [reflexivity|exact Hin]. }
+  destruct (analyze_from drop 0 ws) as [|[p0 t0] r] eqn:E; [congruence|].
+  cbn [phrase_match]. apply existsb_exists. exists (k + p0, t0). split.
+  - apply (Hsub (p0, t0)). now left.
+  - cbn [fst snd]. rewrite str_eqb_refl. cbn [andb]. apply rest_ok_all. intros pt Hin.
+    pose proof (analyze_from_sorted drop 0 ws p0 t0 r E pt Hin) as Hle. split; [exact Hle|].
+    replace (k + p0 + (fst pt - p0)) with (k + fst pt) by lia. apply Hsub. now right.
+Qed.
+
+(* the `enumerate` numbering (consecutive offsets 0,1,2,... for the tokens that remain) does not have
+   this property: "lord of the rings" on the stop-word field *)
+Definition renumber (q : list (N * str)) : list (N * str) :=
+  (fix go (i : N) (q : list (N * str)) := match q with [] => [] | (_, t) :: r => (i, t) :: go (i + 1) r end) 0 q.
+Definition lotr : list str := [[108;111;114;100]; [111;102]; [116;104;101]; [114;105;110;103;115]].
+Lemma renumbered_phrase_misses_own_text :
+  phrase_match (analyze drop_stop lotr) false (renumber (analyze drop_stop lotr)) = false
+  /\ phrase_match (analyze drop_stop [[108;111;114;100]; [114;105;110;103;115]]) false (renumber (analyze drop_stop lotr)) = true
+  /\ phrase_match (analyze drop_stop lotr) false (analyze drop_stop lotr) = true.
+Proof. vm_compute. repeat split; reflexivity. Qed.
